@@ -1,6 +1,8 @@
 (* MODEL: maps_model *)
 (* case:  <id> MAP <n0> <op;op;...|-> <op> <op> ...    every <op> applied (independently) to the state reached by the path
           <id> SEQ <n0> <op> <op> ...                  ops applied in sequence
+          <id> PROG <pop> <pop> ...                    T | W=i=k=v | E=i=k (in place) | K=i | C=i=how | A=i=j | R=i | X=i=lo=hi ;
+                                                       obs = the states of all variables, read once at the end
           <id> BIND <src|api> <bop> <bop> ...          T=k=v.. | S=i=k=v | D=i=k | A=i=j | R=i | X=i=lo=hi : each makes a new binding;
                                                        obs = the states of ALL bindings after the op, joined by ';'
    op  :  S=<k>=<v>  G=<k>  D=<k>  A=<n0>=<M{..}>  P=<n0>=<M{..}>  F  R  X=<lo>=<hi>  L  I  Q=<n0>=<M{..}>
@@ -114,6 +116,32 @@ let () = iter_lines (fun line ->
        let st = ref (mnew (z_of_int (int_of_string n0))) in
        let obs = List.map (fun t -> let (m', o) = apply !st t in st := m'; o) ops in
        print_endline (String.concat " " (id :: obs))
+     with Skip -> print_endline (id ^ " SKIP"))
+  | id :: "PROG" :: ops ->
+    (* a whole program, every variable printed once at the end. W / E write variable i in place (its content becomes
+       set / delete of its content: maps are values, no other variable changes); K / C copy variable i into a new one *)
+    (try
+       let nat s = nat_of_int (int_of_string s) in
+       let rec pairs = function
+         | k :: v :: rest -> (parse_value k, parse_value v) :: pairs rest
+         | [] -> []
+         | _ -> failwith "bad literal" in
+       let st = ref [] and dead = ref false in
+       let add o = match bnew cmp_c !st o with Val m -> st := !st @ [m] | GoPanic -> dead := true in
+       let replace i o = match bnew cmp_c !st o with
+         | Val m -> st := List.mapi (fun j x -> if j = i then m else x) !st
+         | GoPanic -> dead := true in
+       List.iter (fun tok -> if not !dead then
+         match String.split_on_char '=' tok with
+         | "T" :: items -> add (BLit (pairs items))
+         | ["W"; i; k; v] -> replace (int_of_string i) (BSet (nat i, parse_value k, parse_value v))
+         | ["E"; i; k] -> replace (int_of_string i) (BDel (nat i, parse_value k))
+         | ["K"; i] | ["C"; i; _] -> (match List.nth_opt !st (int_of_string i) with Some m -> st := !st @ [m] | None -> dead := true)
+         | ["A"; i; j] -> add (BAppend (nat i, nat j))
+         | ["R"; i] -> add (BRest (nat i))
+         | ["X"; i; lo; hi] -> add (BRange (nat i, nat lo, nat hi))
+         | _ -> failwith ("bad program op " ^ tok)) ops;
+       print_endline (id ^ " " ^ (if !dead then "P" else String.concat ";" (List.map state_str !st)))
      with Skip -> print_endline (id ^ " SKIP"))
   | id :: "BIND" :: _mode :: ops ->
     (* several bindings: each op makes a new binding from earlier ones; after each op all bindings are printed *)
